@@ -798,6 +798,105 @@ def layout_frame_stream(facts):
     return [t.rr]
 
 
+def accept_frame(facts):
+    """ACCEPT/frame: the frame reader's own cross-checks against STREAMINFO do not refuse what the writer emits.  The
+    writer codes a sample size without a table code as `Unspecified` (the header accessor then yields None) and every
+    other size as itself; on the reader's Ok paths the conditions that mention the header's sample size are evaluated for
+    both answers (None, Some(size stated in STREAMINFO))."""
+    t = R("ACCEPT/frame", "the frame reader accepts a header whose sample size is unspecified or equal to the STREAMINFO value")
+    pc, pa = parser_unit(facts, "frame")
+    ctx = E.Ctx(facts)
+    ctx.reader = True
+    ctx.open_loops = True
+    ctx.collect_asserts = True
+    ctx.noinline = list(CTOR_NOINLINE)
+    it = E.Interp(ctx, pc, pa)
+    it.run()
+    ACC = r"FrameHeader::bits_per_sample$"
+    is_acc = lambda x: isinstance(x, tuple) and x and x[0] == "call" and re.search(ACC, x[1])
+
+    def ev(e, hb, sref):
+        """-> ('none',) | ('some', v) | ('v', canon) | ('b', bool) | None"""
+        e = E.strip_casts(e)
+        if not isinstance(e, tuple) or not e:
+            return None
+        if is_acc(e):
+            return hb
+        if e[0] == "call" and re.search(r"Option::<.*>::unwrap_or$", e[1]) and len(e[2]) == 2:
+            o = ev(e[2][0], hb, sref)
+            if o is None:
+                return None
+            if o[0] == "none":
+                return ev(e[2][1], hb, sref)
+            if o[0] == "some":
+                return o[1]
+            return None
+        if e[0] == "agg" and e[2] == "Some" and len(e[3]) == 1:
+            v = ev(e[3][0], hb, sref)
+            return ("some", v) if v is not None else None
+        if e[0] == "agg" and e[2] == "None":
+            return ("none",)
+        if e[0] == "discr":
+            o = ev(e[1], hb, sref)
+            if o and o[0] in ("none", "some"):
+                return ("v", "1" if o[0] == "some" else "0")
+            return None
+        if e[0] == "c" and isinstance(e[1], int):
+            return ("v", str(e[1]))
+        m = re.search(r"PartialEq(<.*>)?>::(eq|ne)$", e[1]) if e[0] == "call" else None
+        if m and len(e[2]) == 2:
+            e = ("bin", "Eq" if m.group(2) == "eq" else "Ne", e[2][0], e[2][1])
+        if e[0] == "bin" and e[1] in ("Eq", "Ne"):
+            a, b2 = ev(e[2], hb, sref), ev(e[3], hb, sref)
+            if a is None or b2 is None:
+                return None
+            same = a == b2
+            if not same and ("?" in str(a) or "?" in str(b2)):
+                return None
+            # two different symbolic atoms are not known to differ: only decide when structurally equal, or when one side
+            # is None / Some and the other the opposite shape
+            if not same and a[0] == "v" and b2[0] == "v" and not (a[1].isdigit() and b2[1].isdigit()):
+                return None
+            return ("b", same if e[1] == "Eq" else not same)
+        if E.mentions(e, is_acc):
+            return None
+        return ("v", E.canon(e))
+    sref = None
+    judged = 0
+    for label, hb in (("unspecified (None)", ("none",)), ("equal to STREAMINFO", "S")):
+        okpaths = 0
+        reasons = []
+        for (_bid, _bi, ass) in ctx.ok_returns:
+            ok = True
+            for a in ass:
+                if a[0] != "cond" or not E.mentions(a[1], is_acc):
+                    continue
+                hbv = hb
+                if hb == "S":
+                    # the STREAMINFO value is whatever the condition compares the accessor with
+                    cands = [x for x in E.walk_expr(a[1]) if x[0] == "p" and x[1] == 1]
+                    if not cands:
+                        continue
+                    hbv = ("some", ("v", E.canon(cands[0])))
+                r = ev(a[1], hbv, sref)
+                if r is None or r[0] != "b":
+                    continue
+                judged += 1
+                if int(r[1]) != a[2]:
+                    ok = False
+                    reasons.append("%s is %s, the Ok path needs %s" % (E.show(a[1])[:110], r[1], bool(a[2])))
+            if ok:
+                okpaths += 1
+        t.row(okpaths >= 1, pc.id, "sample-size:%s" % label.split(" ")[0],
+              "a frame header whose sample size is %s is refused by the frame reader on every path: %s. The writer emits such "
+              "headers (sizes without a header code are written as `unspecified`), so a stream the library wrote is not parsed"
+              % (label, "; ".join(reasons[:2])), {"case": label, "ok_paths": okpaths}, pc.loc())
+    t.row(judged >= 2, pc.id, "inventory", "no condition on the header's sample size was found on the Ok paths of the frame "
+          "reader (the rule went blind)")
+    t.rr.require_floor(3, "acceptance rows")
+    return [t.rr]
+
+
 def decoder_width(facts):
     t = R("WIDTH/decode", "the decoder multiplies and accumulates predictions in 64 bits")
     n = 0
@@ -821,6 +920,39 @@ def decoder_width(facts):
                     and re.search(r"impl (i32|i16|u32)>", fn.get("def", "")):
                 n += 1
                 t.row(False, b.id, "narrow-arith", "%s uses %s (%s)" % (b.id, fn["def"], b.loc(bi, "term")))
+    # a decode helper that multiplies / accumulates in a type parameter must be instantiated with a 64-bit type everywhere
+    for b in facts.body_list:
+        if not b.module.startswith("component::decode"):
+            continue
+        accs = set()
+        for bi, tt in b.calls():
+            fn = tt.get("fn") or {}
+            if re.search(r"^std::ops::(Mul|Add|AddAssign|MulAssign)::", fn.get("def") or ""):
+                for g in (fn.get("gargs") or [])[:1]:
+                    if re.match(r"^[A-Z]\w*$", g):
+                        accs.add(g)
+        if not accs:
+            continue
+        names = []
+        for pr in b.raw.get("preds") or []:
+            nm = pr.split(":")[0].strip()
+            if re.match(r"^[A-Z]\w*$", nm) and nm != "Self" and nm not in names:
+                names.append(nm)
+        for c in facts.body_list:
+            for bi, tt in c.calls():
+                fn = tt.get("fn") or {}
+                if (fn.get("def") or "") != b.id:
+                    continue
+                g = fn.get("gargs") or []
+                bind = dict(zip(names, g[-len(names):])) if names and len(g) >= len(names) else {}
+                for a_ in sorted(accs):
+                    ty = bind.get(a_)
+                    n += 1
+                    t.row(ty in ("i64", "u64", "i128") or (ty is not None and re.match(r"^[A-Z]\w*$", ty)), c.id,
+                          "accumulator-width:%s" % b.raw.get("name"),
+                          "%s instantiates the accumulator type %s of %s with %s (%s): order x 15-bit coefficients x up to "
+                          "33-bit samples need more than 32 bits" % (c.id, a_, b.id, ty, c.loc(bi, "term")),
+                          {"function": c.id, "callee": b.id, "accumulator": ty}, c.loc(bi, "term"))
     t.row(n >= 1, "component::decode", "inventory", "no multiplication found in the decode module: the rule went blind")
     t.rr.require_floor(2, "decode arithmetic sites")
     return [t.rr]
@@ -829,7 +961,7 @@ def decoder_width(facts):
 def run(facts, tier, ctx):
     out = []
     for fn in (layout_streaminfo, layout_metadata, layout_frame_header, table_codes, layout_subframes,
-               layout_params_residual, layout_frame_stream, decoder_width):
+               layout_params_residual, layout_frame_stream, accept_frame, decoder_width):
         try:
             out += fn(facts)
         except E.Undecided as e:
